@@ -6,7 +6,7 @@ import solvegen
 from core import clist
 
 HEADER = """From Coq Require Import ZArith List Bool.
-From PV Require Import Common.Bits Rand.BV Rand.Expr Rand.Lower Rand.Typing Rand.World Rand.Soft Rand.Unroll Rand.Dyn Rand.SolveCheck.
+From PV Require Import Common.Bits Rand.BV Rand.Expr Rand.Lower Rand.Typing Rand.World Rand.Soft Rand.Unroll Rand.Dyn Rand.Dist Rand.SolveCheck.
 Import ListNotations.
 Open Scope Z_scope.
 """
@@ -53,7 +53,7 @@ def brief(sc, oi):
 
 
 def run_generic(ctx, prop, bits, what, n_quick, n_thorough, softs=False, small=True, tree=False, hist=False, tag=None, ninst=1, soft_bias=False,
-                free=False, rls=False, hooks=False, extra=None, olists=False):
+                free=False, rls=False, hooks=False, extra=None, olists=False, dists=False, ignore_terms=False):
     """bits: mask of s_check bits that are violations of this property; bit 1 (terms) is always the tie (A)"""
     rnd = random.Random("%s-%s-%d" % (prop, tag or "", ctx.seed)) if tag else random.Random("%s-%d" % (prop, ctx.seed))
     n = n_quick if ctx.quick() else n_thorough
@@ -61,6 +61,7 @@ def run_generic(ctx, prop, bits, what, n_quick, n_thorough, softs=False, small=T
         g = solvegen.Gen(r, small=small, tree=tree, hist=hist, ninst=ninst, soft_bias=soft_bias, free=free, rls=rls)
         g.hooks = hooks
         g.olists = olists
+        g.dists = dists
         return g.scenario(ncalls=3, softs=softs)
     scenarios = [gen(rnd) for _ in range(n)]
     stats = {"evaluations": 0, "outcomes": {}, "nowt": 0}
@@ -83,7 +84,7 @@ def run_generic(ctx, prop, bits, what, n_quick, n_thorough, softs=False, small=T
                 core.add_violation(ctx, "%s (check bits %d; outcome %s, values %s)" % (what, code & bits, res["outcome"], res["values"]),
                                    {"scenario": brief(scs[si], oi), "observed": {k: res[k] for k in ("outcome", "err", "before", "values")},
                                     "code": code, "model_terms_agree": not (code & 1)})
-            elif code & 1:
+            elif code & 1 and not ignore_terms:
                 ctx.tie_broken.append("model's lowering != recorded solver terms in scenario %r" % (brief(scs[si], oi),))
     results, crashed = evaluate(ctx, scenarios, (tag or prop).lower(), do_sat=small)
     judge(scenarios, results, crashed)
